@@ -7,8 +7,8 @@ CONSTANTS
 SPECIFICATION Spec
 CHECK_DEADLOCK FALSE
 INVARIANTS
-  SplitWellFormed SplitCover SplitEnumBounded
+  SplitWellFormed SplitCover SplitEnumTerminates
   FloatOrderModel FloatDigitsModel FloatInverse FloatMonotone
   PrefixDecode
   QueryExact SortComplete SortOrdered
-  SplitAgrees FloatAgrees PrefixAgrees
+  SplitEnumBounded SplitAgrees FloatAgrees PrefixAgrees
